@@ -239,6 +239,7 @@ func lapackProp(self, other, what string) *property {
 			res.Merge(r)
 			res.Merge(stride.RunArgmaxBase(def, sc))
 			res.Merge(loopidx.RunStaleFlag(def, sc))
+			res.Merge(flagx.RunSentinel(def, sc))
 			o := lapackArgs
 			a := args.Run(def, core.Scope{Patterns: []string{"./lapack/gonum"}, Files: sc.Files}, o)
 			a.Floor("entry_points", 50)
@@ -468,6 +469,9 @@ func init() {
 		explanation: "Decides the 'reported through the ok/error result rather than a silently wrong answer' clause of C06 for every call site and return of mat and lapack64: OKFLOW.use — the ok/error/unconverged result of every non-query call to a LAPACK routine or to a mat factorization/solver reaches a branch, a field, a return or another call (def-use reachability on the CFG; explicit advisory discards are a frozen table); OKFLOW.report — no function returns a constant success on the path where a callee's status was false; OKFLOW.cond — all error-returning Solve*/Inverse* methods can return Condition, every finite Condition(x) is returned exactly under x > ConditionTolerance (the one tolerance object), Condition(+Inf) only under a failed status, and receivers that store a cond estimate report it. STRIDE on the factorization files (a strided right-hand side or update vector is addressed with its own increment; its Data is treated as contiguous only under a test of Inc). FACT.normorder — the norm handed to a LAPACK condition estimator is computed before the in-place factorization of the same storage (found and repaired: BandCholesky.Cond used the norm of the factor); FACT.state — Clone/Scale/SymRankOne/ExtendVecSym/RankOne, which rebuild the receiver from another value of the same type, assign every field (found and repaired: LU.RankOne into a fresh receiver left ok == false, so Det was 0 and SolveTo failed); FACTKIND.pair — mat.QR and mat.LQ hand their tau field only to the lapack64 routines of the family that filled it; OKFLOW.condpath — in the Solve*/Inverse* methods of the types that keep a cond estimate, every `return nil` is preceded on all paths by the comparison of that estimate with ConditionTolerance (a fast path for raw right-hand sides cannot skip it); FACT.condafter — where a function factorizes storage in place and estimates the condition number (lapack64 *con, or the receiver's updateCond), the estimate is reached only after the factorization, because the estimators work on the factors; FACT.condunit — the reciprocal condition number returned by the lapack64 *con estimators reaches a comparison with ConditionTolerance, a Condition(...) conversion or a cond field only through an odd number of inversions (found and repaired: TriDense.InverseTri and TriDense.SolveTo compared rcond itself with the tolerance and never reported an ill-conditioned matrix); NILRECV on the factorization files. Does NOT decide reconstruction identities, update formulas or the numerical consistency of Det/LogDet/Cond across factorizations.",
 		assumptions: commonAssumptions,
 		run: func(tier string, res *core.Result) {
+			sn := flagx.RunSentinel(def, core.Scope{Patterns: []string{"./lapack/gonum"}, Files: func(rel string) bool { return rel == "lapack/gonum/dggsvp3.go" }})
+			sn.Floor("uniform_fills_handed_to_a_sentinel_parameter", 1)
+			res.Merge(sn)
 			r := okflow.Run(def, core.Pkgs("./mat", "./lapack/lapack64", "./lapack/gonum"))
 			r.Floor("status_call_sites", 120)
 			r.Floor("solver_methods", 18)
@@ -924,6 +928,8 @@ func dump(argv []string) {
 		res = stride.RunArgmaxBase(def, core.Pkgs(argv[1:]...))
 	case "staleflag":
 		res = loopidx.RunStaleFlag(def, core.Pkgs(argv[1:]...))
+	case "sentinel":
+		res = flagx.RunSentinel(def, core.Pkgs(argv[1:]...))
 	case "workquery":
 		res = flagx.RunWorkQuery(def, core.Pkgs(argv[1:]...))
 	case "betascale":
